@@ -573,6 +573,11 @@ func (c *fctx) convert(fr *frame, x *ssa.Convert, reach string, st *state) val {
 		key, srt := c.elemKey(sl.Elem()), c.elemSort("Int")
 		c.loopCheck(fr, key)
 		arr := c.fresh("bytes", "(Array Int Int)")
+		if eb == nil || eb.Kind() != types.Uint8 {
+			// []rune(s): the code points of s, as an uninterpreted function of s
+			c.S.declareOnce("(declare-fun runesArr (Str) (Array Int Int))")
+			c.assume(fmt.Sprintf("(= %s (runesArr %s))", arr, v.t))
+		}
 		c.setRegion(st, key, srt, fmt.Sprintf("(store %s %s %s)", c.region(st, key, srt), r, arr))
 		if eb != nil && eb.Kind() == types.Uint8 {
 			c.assume(fmt.Sprintf("(forall ((i!c Int)) (! (=> (and (<= 0 i!c) (< i!c (len %s))) (= (select %s i!c) (at %s i!c))) :pattern ((select %s i!c))))", v.t, arr, v.t, arr))
@@ -598,7 +603,16 @@ func (c *fctx) convert(fr *frame, x *ssa.Convert, reach string, st *state) val {
 				c.assume(fmt.Sprintf("(forall ((i!c Int)) (! (=> (and (<= 0 i!c) (< i!c (slen %s))) (= (at %s i!c) (select (select %s (sbase %s)) (idx (soff %s) i!c)))) :pattern ((at %s i!c))))", v.t, s, h, v.t, v.t, s))
 				return val{t: s}
 			}
-			c.used["abstracted:string([]rune) (rune encoding uninterpreted)"] = true
+			c.used["abstracted:string([]rune) (rune encoding uninterpreted; runeSlice(s, lo, hi) names the text of code points lo..hi of s)"] = true
+			// string(rs[lo:hi]) where rs holds the code points of s is runeSlice(s, lo, hi)
+			c.S.declareOnce("(declare-fun runesArr (Str) (Array Int Int))")
+			c.S.declareOnce("(declare-fun runesToStr ((Array Int Int) Int Int) Str)")
+			c.S.declareOnce("(declare-fun runeSlice (Str Int Int) Str)")
+			c.S.declareOnce("(declare-fun runeCount (Str) Int)")
+			c.S.declareOnce("(assert (forall ((s Str) (lo Int) (n Int)) (! (= (runesToStr (runesArr s) lo n) (runeSlice s lo (+ lo n))) :pattern ((runesToStr (runesArr s) lo n)))))")
+			c.S.declareOnce("(assert (forall ((s Str) (lo Int)) (! (= (runeSlice s lo lo) emptyStr) :pattern ((runeSlice s lo lo)))))")
+			h := c.region(st, c.elemKey(sl.Elem()), c.elemSort("Int"))
+			c.assume(fmt.Sprintf("(= %s (runesToStr (select %s (sbase %s)) (soff %s) (slen %s)))", s, h, v.t, v.t, v.t))
 			return val{t: s}
 		}
 		if fIsB && fb.Info()&types.IsInteger != 0 {
